@@ -20,11 +20,13 @@ def ofM : ParseInt.MRes → Res
   | .done (.invalidNegativeSign i) => err "InvalidNegativeSign" i
   | .fault => .error (.fault "unchecked")
 
-/-- release build; no separator byte, no integer separator flags, no base suffix -/
+/-- release build; no integer separator flags (= contiguous integer iterator), no base suffix. The digit-separator
+byte and the separator flags of the fraction / exponent are ARBITRARY: since repo fix 12a2453 a contiguous component
+iterator counts by its cursor also when the buffer is non-contiguous, so nothing in the integer parser looks at the
+separator byte (a separator byte in the input is an ordinary non-digit). -/
 structure Simple (c : Cfg) : Prop where
   hf : c.feats.format = true
   hd : c.debug = false
-  sep : c.fmt.digitSeparator = 0
   flags : c.sepFlags .integer = SepFlags.none
   suf : c.fmt.baseSuffix = 0
 
@@ -32,9 +34,6 @@ variable {c : Cfg}
 
 theorem Simple.contig (h : Simple c) : c.iterContiguous .integer = true := by
   simp [Cfg.iterContiguous, h.flags, SepFlags.none, SepFlags.any]
-
-theorem Simple.bytesContig (h : Simple c) : c.bytesContiguous = true := by
-  simp [Cfg.bytesContiguous, Cfg.digitSeparator, h.hf, h.sep]
 
 theorem Simple.skip (h : Simple c) : c.skip .integer = .noskip := by
   simp [Cfg.skip, h.flags, SepFlags.none, SepFlags.skip]
@@ -46,7 +45,7 @@ theorem Simple.peek (h : Simple c) (b : Bytes) : peek c .integer b = .ok (b.slc[
   simp [Model.peek, h.skip]
 
 theorem Simple.count (h : Simple c) (b : Bytes) : b.iterCount c .integer = b.index := by
-  simp [Bytes.iterCount, h.contig, Bytes.currentCount, h.bytesContig]
+  simp [Bytes.iterCount, h.contig]
 
 theorem Simple.iterNext (h : Simple c) (b : Bytes) :
     iterNext c .integer b =
